@@ -146,14 +146,18 @@ static int print_i(void (*printchar_handler)(void *d, int c),
     prefix_len = (int)strlen(prefix);
     letter_base = ops & OPS_SPEC_UPPER_CASE ? 'A' : 'a';
 
-    do
+    /* a zero value with an explicit precision of zero has no digits */
+    if (u || !(ops & OPS_PREC_IS_GIVEN) || min_len)
     {
-        ch = u % base;
-        if (ch >= 10)
-            ch += letter_base - 10 - '0';
-        *--str = ch + '0';
-        u /= base;
-    } while (u);
+        do
+        {
+            ch = u % base;
+            if (ch >= 10)
+                ch += letter_base - 10 - '0';
+            *--str = ch + '0';
+            u /= base;
+        } while (u);
+    }
 
     len = (int)(end - str);
     if (len < min_len)
